@@ -87,11 +87,18 @@ def main():
         sh("git checkout -- .", cwd="/repo")
         rc, o = sh("git status --porcelain", cwd="/repo")
         assert not o.strip(), "could not restore /repo: " + o
+    d = os.path.join(ROOT, "seeded", "benign", f"{a.pid}-{a.variant}")
+    prev = os.path.join(d, "meta.json")
+    if os.path.exists(prev):           # a re-run after the machinery was corrected: keep what the first pass saw
+        old = json.load(open(prev))
+        out["first_pass_alarms"] = old.get("first_pass_alarms", old.get("alarms", []))
+        if not out.get("verified") and old.get("verified"):
+            out["verified"] = old["verified"]
+        results = {**old.get("ran", {}), **results}
     out["ran"] = results
     out["quiet"] = sorted(c for c, r in results.items() if r["rc"] == 0)
     out["alarms"] = sorted(c for c, r in results.items() if r["rc"] == 1)
     out["machinery_failures"] = sorted(c for c, r in results.items() if r["rc"] not in (0, 1))
-    d = os.path.join(ROOT, "seeded", "benign", f"{a.pid}-{a.variant}")
     os.makedirs(d, exist_ok=True)
     shutil.copy(patch, os.path.join(d, "patch.diff")); shutil.copy(equiv, os.path.join(d, "equiv.py"))
     json.dump(out, open(os.path.join(d, "meta.json"), "w"), indent=1)
